@@ -98,7 +98,7 @@ func hookReplays(cfg *Cfg) {
 					What: "schedule point " + sc.tag + " was not reached by " + sc.a.Token() + " (the code path modelled by the atomic actions changed)", Input: c})
 				continue
 			}
-			lin := checkConc(w, c, *cfg, orc, 600000, "hook-replay:"+sc.id)
+			lin := checkConc(w, c, *cfg, orc, 300000, "hook-replay:"+sc.id)
 			notes, _, _ := w.effects(1)
 			rep.Count(fmt.Sprintf("hook-replay:%s:linearizable=%v:notified=%d", sc.id, lin, len(notes)))
 			o := res[sc.id]
